@@ -36,9 +36,10 @@ def _set(v):
 class Net:
     """The built scenario for one model configuration."""
 
-    def __init__(self, st: Dict[str, Any], noncanon: bool = False):
+    def __init__(self, st: Dict[str, Any], noncanon: bool = False, deep: bool = False):
         self.st = st
         self.noncanon = noncanon
+        self.bnext = None  # name of the node between the middlebox and B, if any
         self.topo = st["topo"]
         self.zoneA, self.zoneB = st["zoneA"], st["zoneB"]
         up = st["up"]
@@ -88,6 +89,24 @@ class Net:
             links = [l for l in cfg["simulation"]["network"]["links"]
                      if (up["linkB"] or l["endpoint_a_hostname"] != self.b) and (up["linkA"] or l["endpoint_a_hostname"] != self.a)]
             self.portA, self.portB = ha[2], hb[2]
+            if deep and self.zoneB == "int":
+                # B is not on the firewall's internal subnet but behind a further (all-permitting) router: the zone
+                # of a frame is decided by the interface it leaves through, not by the subnet of its destination
+                self.ipB, self.bnext = "192.168.5.2", "r2"
+                for nd in nodes:
+                    if nd["hostname"] == "int":
+                        nd["ip_address"], nd["default_gateway"] = "192.168.5.2", "192.168.5.1"
+                    if nd["hostname"] == "fw":
+                        nd["routes"] = [{"address": "192.168.5.0", "subnet_mask": "255.255.255.0", "next_hop_ip_address": "192.168.1.254"}]
+                nodes.append({"hostname": "r2", "type": "router", "num_ports": 3,
+                              "ports": {1: {"ip_address": "192.168.1.254", "subnet_mask": "255.255.255.0"},
+                                        2: {"ip_address": "192.168.5.1", "subnet_mask": "255.255.255.0"}},
+                              "acl": {1: {"action": "PERMIT"}},
+                              "default_route": {"next_hop_ip_address": "192.168.1.1"}})
+                links = [l for l in links if "int" not in (l["endpoint_a_hostname"], l["endpoint_b_hostname"])]
+                links.append(scenarios.link("r2", 1, "fw", 2))
+                if up["linkB"]:
+                    links.append(scenarios.link("int", 1, "r2", 2))
         for n in nodes:
             if n["hostname"] == self.a:
                 apps = copy.deepcopy(A_APPS)
@@ -149,6 +168,7 @@ class Net:
         net = game.simulation.network
         self.game = game
         self.A, self.B, self.M = (net.get_node_by_hostname(x) for x in (self.a, self.b, self.m))
+        self.Bnext = net.get_node_by_hostname(self.bnext) if self.bnext else self.B
         return game
 
     def apply_faults(self, game):
@@ -284,7 +304,7 @@ class Walks:
                     w._ev(frame, "Emit")
             elif node is n.M and id(frame) in w.tr and w.tr[id(frame)]["pkt"]["dst"] == "B":
                 receiver = link.endpoint_a if link.endpoint_a is not sender_nic else link.endpoint_b
-                if getattr(receiver, "_connected_node", None) is n.B:
+                if getattr(receiver, "_connected_node", None) is n.Bnext:
                     w._ev(frame, "Forward")
             return None
 
@@ -296,7 +316,7 @@ class Walks:
             node = getattr(receiver, "_connected_node", None)
             if node is n.M and getattr(sender_nic, "_connected_node", None) is n.A:
                 pass  # MRecv is logged at the interface (before the middlebox pipeline runs)
-            elif node is n.B and getattr(sender_nic, "_connected_node", None) is n.M and w.tr[id(frame)]["pkt"]["dst"] == "B":
+            elif node is n.B and getattr(sender_nic, "_connected_node", None) in (n.M, n.Bnext) and w.tr[id(frame)]["pkt"]["dst"] == "B":
                 w._ev(frame, "BRecv", acc=bool(ret) and exc is None)
 
         def before_mrecv(node, frame, from_network_interface):
@@ -440,15 +460,38 @@ def main(tier: str, seed: int) -> int:
     acl_cfgs = [c for c in cfgs if all(c["up"].values())]
     fault_cfgs = [c for c in cfgs if not all(c["up"].values())]
     cfgs = (acl_cfgs[: (2 * n) // 3] + fault_cfgs[: n // 3])[:n]
+    # directed cover of "each list on the path decides on its own": every ordered zone pair of the firewall, everything
+    # up, every list permits everything except exactly one that denies everything from A - with B on the zone's own
+    # subnet and (for the internal zone) behind an inner router
+    all_up = {k: True for k in ("nicA", "nicB", "portA", "portB", "linkA", "linkB", "onM", "onB")}
+    universe = {"__set__": ["A", "B", "M", "MB", "MC", "other"]}
+    directed = []
+    for za in ("ext", "int", "dmz"):
+        for zb in ("ext", "int", "dmz"):
+            if za == zb:
+                continue
+            for blocker in (f"{za}_out" if za != "ext" else "ext_in", f"{zb}_in" if zb != "ext" else "ext_out"):
+                lists = {k: {"rules": [], "implicit": "PERMIT"} for k in LISTS}
+                lists[blocker] = {"rules": [{"act": "DENY", "src": {"__set__": ["A"]}, "dst": dict(universe), "proto": "any", "dport": 0}],
+                                  "implicit": "PERMIT"}
+                directed.append({"topo": "fw", "zoneA": za, "zoneB": zb, "up": dict(all_up), "lists": lists, "_directed": blocker})
+    k0 = len(cfgs)
+    cfgs = cfgs + (directed if tier != "quick" else [d for i, d in enumerate(directed) if (i + seed) % 2 == 0 or d["zoneB"] == "int"])
     common.boot()
     walks = Walks()
     walks.install()
     walk_traces, pair_traces = [], []
-    n_blocked = n_open_changed = n_open = 0
+    n_blocked = n_open_changed = n_open = n_deep = 0
     errors: List[str] = []
     for ci, st in enumerate(cfgs):
         noncanon = bool(ci % 2)
-        net = Net(st, noncanon)
+        deep = st["topo"] == "fw" and st["zoneB"] == "int" and (bool((ci // 2) % 2) or "_directed" in st)
+        if "_directed" in st and st["zoneB"] == "int" and not st.get("_twin"):
+            # the directed internal-zone configurations run in both placements
+            cfgs.append({**st, "_twin": True})
+        if st.get("_twin"):
+            deep = False
+        net = Net(st, noncanon, deep)
         game = net.build()
         net.apply_faults(game)
         lists = net.read_lists()
@@ -460,13 +503,14 @@ def main(tier: str, seed: int) -> int:
         random.seed(seed + ci)
         log: List[str] = []
         d_att = attack(net, game, rng, log)
-        meta = {"part": "pipeline", "topo": net.topo, "zones": [net.zoneA, net.zoneB], "up": st["up"], "config_index": ci,
+        n_deep += 1 if deep else 0
+        meta = {"part": "pipeline", "topo": net.topo, "deep": deep, "zones": [net.zoneA, net.zoneB], "up": st["up"], "config_index": ci,
                 "lists_model": st["lists"] if net.topo != "lan" else {}}
         walk_traces += walks.take(base, meta)
         walks.net = None
         errors += log
         # idle twin
-        net2 = Net(st, noncanon)
+        net2 = Net(st, noncanon, deep)
         game2 = net2.build()
         net2.apply_faults(game2)
         random.seed(seed + ci)
@@ -507,6 +551,9 @@ def main(tier: str, seed: int) -> int:
                                                                       "up": str(tr["meta"]["up"])})
     chk.cov["configurations"] = {"total": len(cfgs), "blocked_per_model": n_blocked, "open": n_open, "open_where_B_changed": n_open_changed}
     chk.cov["frame_walks"] = len(walk_traces)
+    chk.cov["configurations_with_B_behind_an_inner_router"] = n_deep
+    if n_deep == 0:
+        raise tlc.TLCError("vacuous: no firewall configuration with B behind an inner router was drawn")
     if errors:
         chk.cov["attack_exceptions"] = sorted(set(errors))[:10]
     for tr in walk_traces[:2]:
